@@ -91,6 +91,9 @@ class SR:
             if x.ndim == 0 or x.size == 1:
                 return SR.lift(x.reshape(-1)[0])
             raise TypeError("array where a scalar was expected")
+        if isinstance(x, (float, np.floating)) and math.isinf(float(x)):
+            # +-inf (velocity/effort limits): an opaque symbol, never compared in the verified paths
+            return INF if x > 0 else neg(INF)
         if is_number(x):
             return SR.const(x)
         if isinstance(x, Dual):
@@ -435,16 +438,17 @@ def SB_lift(x):
     raise TypeError("cannot lift %r to SB" % (type(x),))
 
 
-ZERO = ONE = TWO = MONE = PI = TRUE = FALSE = None
+ZERO = ONE = TWO = MONE = PI = TRUE = FALSE = INF = None
 
 
 def _init_constants():
-    global ZERO, ONE, TWO, MONE, PI, TRUE, FALSE
+    global ZERO, ONE, TWO, MONE, PI, TRUE, FALSE, INF
     ZERO = SR.const(0)
     ONE = SR.const(1)
     TWO = SR.const(2)
     MONE = SR.const(-1)
     PI = SR.var('pi')
+    INF = SR.var('INFINITY')
     TRUE = _mk(SB, 'T', ())
     FALSE = _mk(SB, 'F', ())
 
